@@ -770,7 +770,9 @@ class Screen(BaseScreen, RealTerminal):
                 new_row.append((y_attr, y_cs, last_text[:nlast_offs]))
 
         new_row.append((z_attr, z_cs, z_text))
-        return new_row, z_col - y_col, (y_attr, y_cs, y_text)
+        # Z is drawn in the place of Y: move back over Z to insert Y there
+        z_cols = str_util.calc_width(z_text, 0, len(z_text))
+        return new_row, z_cols, (y_attr, y_cs, y_text)
 
     def clear(self) -> None:
         """
